@@ -18,15 +18,19 @@ static const char *const SN[] = {
 	"cancel racing with activation on another thread",
 	"cancelled from its registration handler while an event is already pending",
 };
+static const char *const SIB = "cancelled from inside its first handler invocation right after a sibling source was created and activated on the same descriptor; "
+	"the sibling must keep receiving events (its registration is shared) and is cancelled afterwards";
 #define NK 4
 #define NS 8
+#define NSIB 2      // extra variants: read and write kinds with a sibling source on the same descriptor
 #define HANDLER 100
-enum { EV_CANCEL_CALL = EV_USER, EV_CANCEL_RET, EV_CANCELH };
+#define HANDLER2 101
+enum { EV_CANCEL_CALL = EV_USER, EV_CANCEL_RET, EV_CANCELH, EV_CANCELH2 };
 static const char KEY = 0;
 
-static dispatch_source_t g_src;
+static dispatch_source_t g_src, g_src2;
 static dispatch_queue_t g_q;
-static int g_kind, g_scen, g_count, g_cancelh, g_fd = -1, g_pipe[2];
+static int g_kind, g_scen, g_count, g_cancelh, g_fd = -1, g_pipe[2], g_count2, g_cancelh2;
 
 static void do_cancel(int id)
 {
@@ -36,6 +40,17 @@ static void do_cancel(int id)
 }
 static void fill_pipe(void) { char b[512]; memset(b, 'w', sizeof b); while (write(g_pipe[1], b, sizeof b) > 0) { } }
 static void drain_pipe(void) { char b[512]; while (read(g_pipe[0], b, sizeof b) > 0) { } }
+static void handler2(void *ctx)
+{
+	(void)ctx;
+	vx_ev(EV_START, HANDLER2, (int64_t)dispatch_source_get_data(g_src2));
+	if (g_kind == 2) drain_pipe();
+	if (g_kind == 3) fill_pipe();
+	g_count2++;
+	vx_point();
+	vx_ev(EV_END, HANDLER2, 0);
+}
+static void cancel_handler2(void *ctx) { (void)ctx; vx_ev(EV_CANCELH2, 0, vx_epoll_armed(g_fd)); g_cancelh2++; }
 static void handler(void *ctx)
 {
 	(void)ctx;
@@ -44,6 +59,13 @@ static void handler(void *ctx)
 	// consume the event so that the (level-triggered) source goes quiet until the next feed()
 	if (g_kind == 2) drain_pipe();
 	if (g_kind == 3) fill_pipe();
+	if (g_scen == 8 && g_count == 1) {
+		g_src2 = dispatch_source_create(g_kind == 2 ? DISPATCH_SOURCE_TYPE_READ : DISPATCH_SOURCE_TYPE_WRITE, (uintptr_t)g_fd, 0, g_q);
+		dispatch_source_set_event_handler_f(g_src2, handler2);
+		dispatch_source_set_cancel_handler_f(g_src2, cancel_handler2);
+		dispatch_activate(g_src2);
+		do_cancel(1);
+	}
 	if (g_scen == 1 && g_count == 1) do_cancel(1);
 	vx_point();
 	vx_ev(EV_END, HANDLER, 0);
@@ -67,8 +89,9 @@ static void t1_fn(void *arg)
 static void warm_fn(void *c) { *(int *)c = 1; }
 static void wait_int(int *p, int n) { int *a[2] = { p, (int *)(intptr_t)n }; vx_wait_until(pred_int_ge, a); }
 
-static int nvariants(void) { return NK * NS; }
-static void describe(int v, char *b, size_t n) { snprintf(b, n, "%s %s", KN[v / NS], SN[v % NS]); }
+static int nvariants(void) { return NK * NS + NSIB; }
+static void decode(int v, int *kind, int *scen) { if (v < NK * NS) { *kind = v / NS; *scen = v % NS; } else { *kind = 2 + (v - NK * NS); *scen = 8; } }
+static void describe(int v, char *b, size_t n) { int k, sc; decode(v, &k, &sc); snprintf(b, n, "%s %s", KN[k], sc == 8 ? SIB : SN[sc]); }
 
 static void feed(void)
 {
@@ -79,7 +102,7 @@ static void feed(void)
 
 static void run(int v)
 {
-	g_kind = v / NS; g_scen = v % NS; g_count = g_cancelh = 0; g_fd = -1;
+	decode(v, &g_kind, &g_scen); g_count = g_cancelh = g_count2 = g_cancelh2 = 0; g_fd = -1;
 	vx_set_horizon(6ull * 1000000000ull);
 	g_q = dispatch_queue_create("vx.cancel", NULL);
 	dispatch_queue_set_specific(g_q, &KEY, (void *)&KEY, NULL);
@@ -147,6 +170,14 @@ static void run(int v)
 		feed();                      // data merged / byte present before the source is even activated
 		dispatch_activate(g_src);
 		break;
+	case 8:
+		dispatch_activate(g_src); feed();
+		wait_int(&g_cancelh, 1);
+		feed();                      // the next event belongs to the sibling alone
+		wait_int(&g_count2, 1);
+		vx_ev(EV_CANCEL_CALL, 8, 0); dispatch_source_cancel(g_src2); vx_ev(EV_CANCEL_RET, 8, 0);
+		wait_int(&g_cancelh2, 1);
+		break;
 	}
 	if (th >= 0) vx_join(th);
 	if (g_scen != 5) wait_int(&g_cancelh, 1);
@@ -159,7 +190,7 @@ static void run(int v)
 
 static int check(int v, const vx_log *l, char *msg, size_t len)
 {
-	int kind = v / NS, scen = v % NS;
+	int kind, scen; decode(v, &kind, &scen);
 	int first_cancel_ret = -1, cancelh = -1, ncancelh = 0, open_handler = 0, last_end = -1;
 	int starts_after_cancel = 0;
 	for (uint32_t i = 0; i < l->n; i++) {
@@ -177,7 +208,7 @@ static int check(int v, const vx_log *l, char *msg, size_t len)
 			ncancelh++; cancelh = (int)i;
 			if (e->id != 1) FAILF(msg, len, "cancellation handler did not run on the source's target queue");
 			if (open_handler || (last_end >= 0 && (int)i < last_end)) FAILF(msg, len, "cancellation handler started (event #%u) while an event handler invocation was in progress", i);
-			if (kind >= 2 && e->arg != -1) FAILF(msg, len, "cancellation handler started while the descriptor was still registered with epoll (events 0x%llx): closing it there would not be safe", (long long)e->arg);
+			if (kind >= 2 && e->arg != -1 && scen != 8) FAILF(msg, len, "cancellation handler started while the descriptor was still registered with epoll (events 0x%llx): closing it there would not be safe", (long long)e->arg);
 		}
 		if (e->kind == EV_CANCEL_RET && e->id == 5) {
 			if (open_handler) FAILF(msg, len, "dispatch_source_cancel_and_wait returned (event #%u) while the event handler was still running", i);
@@ -186,9 +217,15 @@ static int check(int v, const vx_log *l, char *msg, size_t len)
 	}
 	if (scen != 5 && ncancelh != 1) FAILF(msg, len, "cancellation handler ran %d times (expected exactly once)", ncancelh);
 	if (scen == 0 && ev_count(l, EV_START, HANDLER)) FAILF(msg, len, "event handler ran although the source was cancelled before activation");
-	if ((scen == 1 || scen == 2 || scen == 5 || scen == 7) && starts_after_cancel)
+	if (scen == 8) {
+		if (ev_count(l, EV_CANCELH2, 0) != 1) FAILF(msg, len, "the sibling's cancellation handler ran %d times", ev_count(l, EV_CANCELH2, 0));
+		int c2 = ev_first(l, EV_CANCELH2, 0);
+		if (l->ev[c2].arg != -1) FAILF(msg, len, "the last source on the descriptor was cancelled but the descriptor is still registered with epoll (events 0x%llx)", (long long)l->ev[c2].arg);
+		for (uint32_t i = 0; i < l->n; i++) if (l->ev[i].kind == EV_START && l->ev[i].id == HANDLER2 && (int)i > c2) FAILF(msg, len, "the sibling's event handler started after its cancellation handler");
+	}
+	if ((scen == 1 || scen == 2 || scen == 5 || scen == 7 || scen == 8) && starts_after_cancel)
 		FAILF(msg, len, "event handler started %d time(s) after the cancel %s had returned", starts_after_cancel,
-				scen == 1 ? "issued from the handler" : scen == 2 ? "issued from an item on the target queue" : scen == 7 ? "issued from the registration handler (on the target queue)" : "_and_wait");
+				(scen == 1 || scen == 8) ? "issued from the handler" : scen == 2 ? "issued from an item on the target queue" : scen == 7 ? "issued from the registration handler (on the target queue)" : "_and_wait");
 	if ((scen == 3 || scen == 4 || scen == 6) && starts_after_cancel > 1)
 		FAILF(msg, len, "event handler started %d times after dispatch_source_cancel had returned on another thread (at most the one committed invocation is allowed)", starts_after_cancel);
 	return 0;
